@@ -53,7 +53,9 @@ class Ctx:
         self.work = os.path.join(VERIF, ".work", pid + ("" if "VERIF_WORKTAG" not in os.environ else "." + os.environ["VERIF_WORKTAG"]))
         shutil.rmtree(self.work, ignore_errors=True)
         os.makedirs(self.work, exist_ok=True)
-        self.replays = os.path.join(VERIF, "replays", pid)
+        # self-test runs against a scratch copy (VERIF_REPO set) must not overwrite the real evidence / replays
+        self.outroot = VERIF if self.repo == "/repo" else os.path.join(VERIF, ".mut")
+        self.replays = os.path.join(self.outroot, "replays", pid)
         self.t0 = time.time()
         self.rng = random.Random(seed)
         self.violations = []      # (key, replay_path, text)
@@ -342,8 +344,8 @@ class Ctx:
         ev = {"property_id": self.pid, "tier": self.tier, "seed": self.seed, "level": "model_checking",
               "coverage": cov, "assumptions": list(assumptions), "wall_s": round(wall, 2),
               "violations": len(self.violations)}
-        os.makedirs(os.path.join(VERIF, "evidence"), exist_ok=True)
-        with open(os.path.join(VERIF, "evidence", self.pid + ".json"), "w") as f:
+        os.makedirs(os.path.join(self.outroot, "evidence"), exist_ok=True)
+        with open(os.path.join(self.outroot, "evidence", self.pid + ".json"), "w") as f:
             json.dump(ev, f, indent=1, default=str)
         for key, what in self.known_hits:
             print("KNOWN-FINDING: property=%s %s [%s]" % (self.pid, what, key))
